@@ -31,6 +31,11 @@ ARCH = {
     'armv6m': dict(file='ascon-asm-armv6m.S', defs=['-D__ARM_ARCH_ISA_THUMB=1', '-D__ARM_ARCH=6', '-D__ARM_ARCH_6M__'], cls='Arm32', bits=32, layout='sliced32le'),
     'm68k': dict(file='ascon-asm-m68k.S', defs=['-D__m68k__'], cls='M68k', bits=32, layout='sliced32be'),
     'xtensa': dict(file='ascon-asm-xtensa.S', defs=['-D__XTENSA__'], cls='Xtensa', bits=32, layout='word64le'),
+    # the same files under the other preprocessor configurations they contain
+    'm68k-coldfire': dict(file='ascon-asm-m68k.S', defs=['-D__m68k__', '-D__mcoldfire__'], cls='M68k', bits=32, layout='sliced32be'),
+    'xtensa-windowed': dict(file='ascon-asm-xtensa.S', defs=['-D__XTENSA__', '-D__XTENSA_WINDOWED_ABI__'], cls='Xtensa', bits=32, layout='word64le'),
+    'xtensa-esp8266': dict(file='ascon-asm-xtensa.S', defs=['-D__XTENSA__', '-DESP8266'], cls='Xtensa', bits=32, layout='word64le'),
+    'riscv32i-pic': dict(file='ascon-asm-riscv32i.S', defs=['-D__riscv', '-D__riscv_xlen=32', '-D__riscv_cmodel_pic'], cls='RiscV', bits=32, layout='sliced32le'),
 }
 
 
@@ -633,6 +638,8 @@ class Xtensa(Machine):
         self.ar[1] = self.STACK; self.ar[2] = self.STATE; self.ar[3] = (r | (dirty << 8)) & M32; self.ar[0] = 0xdead0000
         self.saved0 = list(self.ar); self.sar = 0
         self.frame_low = self.STACK - 256
+        self.windowed = '-D__XTENSA_WINDOWED_ABI__' in self.a['defs']
+        self.entry = None
 
     def ri(self, n):
         n = n.strip().lower()
@@ -663,12 +670,25 @@ class Xtensa(Machine):
         elif mn == 'beqz':
             if R[self.ri(o[0])] == 0: return self.target(o[1])
         elif mn == 'j': return self.target(o[0])
-        elif mn in ('ret', 'ret.n'): self.done = True
-        elif mn in ('retw', 'retw.n', 'entry'): raise AsmError('windowed ABI instruction in a call0 build: ' + raw)
+        elif mn in ('ret', 'ret.n'):
+            if self.windowed: raise AsmError('call0 return in a windowed-ABI build: ' + raw)
+            self.done = True
+        elif mn in ('retw', 'retw.n', 'entry') and not self.windowed: raise AsmError('windowed ABI instruction in a call0 build: ' + raw)
+        elif mn == 'entry':
+            # the register window has rotated: a1 is the caller's stack pointer, a2.. the arguments
+            if self.entry is not None or self.ri(o[0]) != 1: raise AsmError('entry: ' + raw)
+            self.entry = int(o[1], 0); R[1] = (R[1] - self.entry) & M32
+        elif mn in ('retw', 'retw.n'):
+            if self.entry is None: raise AsmError('retw without entry')
+            self.done = True
         else: raise AsmError('unsupported Xtensa instruction: ' + raw)
         return None
 
     def check_abi(self):
+        if self.windowed:
+            # the callee owns its whole window; a0 (return address and window increment) and a1 (the
+            # window-overflow handlers spill below it) must be intact when retw executes
+            return (1 if self.ar[0] == self.saved0[0] else 0), (1 if self.ar[1] == self.STACK - self.entry else 0)
         regs = 1
         for i in (0, 12, 13, 14, 15):
             if self.ar[i] != self.saved0[i]: regs = 0
@@ -691,9 +711,11 @@ def events(c, ev, sts, arches=None):
     for arch in (arches or list(ARCH)):
         try:
             m = machine(arch)
-            # argument registers may carry dirt above the 8-bit first_round on the ABIs that allow it
+            # AAPCS64 leaves bits 8.. of a uint8_t argument register unspecified: feed dirt there
             dirty = 0xa5c3 if arch in ('armv8a',) else 0
-            for si, s in enumerate(sts):
+            if '-' in arch: sts_a = sts[:2]        # a second preprocessor configuration of a file already run in full
+            else: sts_a = sts
+            for si, s in enumerate(sts_a):
                 for r in range(12):
                     res = m.run(s, r, dirty if si % 2 else 0)
                     ev.append({'e': 'asm.permute', 'arch': arch, 'fn': 'permute', 'r': r, 'in': list(s), 'out': list(res['out']),
